@@ -20,9 +20,9 @@ ASSUMPTIONS = ["a catalogue NAME.EXT spelling exactly '.' or '..' makes open() f
 
 TIME_LIMIT = 20
 
-EVIL_NAMES = ["../../PW", "..", ".", "a/b", "/ABS", "x\x00y", "..\\..", "....//", "A/../B", "\x00", "/", "//", "é", "\xff\xfe", " / ", "CON", "a\nb"]
-EVIL_PAIR_NAMES = [".", "", "..", "A/..", "/", "../..", "..//", "X/"]
-EVIL_PAIR_EXTS = ["/AB", "./A", "/..", "/", "..", ".", "/.", "A/B", "//A"]
+EVIL_NAMES = ["../d", "../side0", "../side1", "../../PW", "..", ".", "a/b", "/ABS", "x\x00y", "..\\..", "....//", "A/../B", "\x00", "/", "//", "é", "\xff\xfe", " / ", "CON", "a\nb"]
+EVIL_PAIR_NAMES = [".", "", "..", "A/..", "/", "../..", "..//", "X/", "../d", "../side0", "../side3", "d/../..", "./../d"]
+EVIL_PAIR_EXTS = ["/AB", "./A", "/..", "/", "..", ".", "/.", "A/B", "//A", "", "X", "BIN"]
 
 
 def mutate_disk(rng, is_fd, raw, muts):
